@@ -27,6 +27,11 @@ CHECKS = {
   note="Token scanning is atomic in the model (sources are cut at the real lexer's token spans); parser not modelled for this property. Tie: model token-kind stream = real lexer's on every repository .incn file, synthetic programs and all their edited variants; oracle: AST (spans erased) equal before/after 10 kinds of layout edit.",
   technique="Lean 4 proof (state-machine simulation lemmas, stack refinement under monotone maps) + lexer correspondence + AST-equality oracle",
   ref="C10"),
+ "C11": dict(
+  text="Lean 4 theorems cover the part of the front end that has a model: terminal rendering (get_line_info/format_error: for every document and every raw offset the byte offsets at which the Rust code slices the source are character boundaries, col_num-1 never underflows, the rendered line has no newline), editor rendering (C19: every range ordered and inside the document), and the lexer's layout layer (total, always ends in EOF). Token scanners, parser, type checker, formatter and emitter have no model: for them the property is decided by the oracle stream (every input through the real lex→parse→check→format→emit-rust pipeline under catch_unwind in a watchdog-supervised child process, every diagnostic's span checked and rendered both ways). That part is exploration, reported inside the same evidence file.",
+  note="Proof level applies to rendering + layout layer only; the rest of the quantifier (all UTF-8 inputs through all stages) is sampled: corpus files, truncations at every boundary of short files, 12 mutation kinds, nesting generators to depth 200, random syntax-heavy strings.",
+  technique="Lean 4 proof (loop invariants over documents) for rendering/layout + fuzzing oracle with panic/abort/timeout detection for unmodelled stages",
+  ref="C11"),
  "C19": dict(
   text="Lean 4 theorems over all documents (List Char, no length bound): offset->position->offset round trip on every character boundary, strict monotonicity, agreement with counting newlines/characters, span_to_range well-formed and inside the document for every pair of raw offsets (empty, reversed, past the end, inside a character), terminal line = editor line + 1; terminal column proved to be a byte count (partial: agrees with the character count when the line prefix is ASCII; counter-example kernel-checked and listed as a known finding).",
   note="u32/usize counters modelled as Nat; model tied to the real functions (and format_error rendering) by exhaustive small documents over a 6-character alphabet plus random documents.",
